@@ -45,13 +45,17 @@ type c38Op struct {
 }
 
 type c38Schedule struct {
-	layout string // plain | k8s | symlink
-	ops    []c38Op
+	layout  string // plain | k8s | symlink
+	ops     []c38Op
+	noGrace bool // first operation immediately after Initialize() returned
 }
 
 func (s c38Schedule) String() string {
 	var sb strings.Builder
 	sb.WriteString("layout=" + s.layout + ":")
+	if s.noGrace {
+		sb.WriteString(" (no pause after Initialize)")
+	}
 	for _, o := range s.ops {
 		fmt.Fprintf(&sb, " +%dms %s", o.gap.Milliseconds(), o.kind)
 		if o.kind == "slowwrite" {
@@ -183,7 +187,9 @@ func c38Play(s c38Schedule, spaced bool) (out c38Outcome) {
 		return
 	}
 
-	time.Sleep(c38StartupGrace)
+	if !s.noGrace {
+		time.Sleep(c38StartupGrace)
+	}
 
 	// ---- the "server" ---------------------------------------------------------------------
 	start := time.Now()
@@ -444,6 +450,50 @@ func TestVerifC38FinalContent(t *testing.T) {
 	if !t.Failed() && len(unconfirmed) > 0 {
 		t.Fatalf("VERIF-INCONCLUSIVE: %d schedule(s) lost the final content but did not do so in all %d re-plays:\n%s",
 			len(unconfirmed), c38Replays, strings.Join(unconfirmed, "\n"))
+	}
+}
+
+// TestVerifC38StartupChange: a change made immediately after Initialize() returned must be signalled as
+// well ("for any timing"). Whether the window is hit depends on goroutine scheduling, so the same
+// one-operation schedule is played many times concurrently; following the rule above, three misses are a
+// violation, one or two are inconclusive.
+func TestVerifC38StartupChange(t *testing.T) {
+	rec := kit.R("TestVerifC38StartupChange")
+	t.Cleanup(kit.Flush)
+	trials := kit.EnvInt("C38_STARTUP_TRIALS", 24)
+
+	for _, s := range []c38Schedule{
+		{layout: "k8s", noGrace: true, ops: []c38Op{{kind: "swap"}}},
+		{layout: "symlink", noGrace: true, ops: []c38Op{{kind: "retarget"}}},
+	} {
+		outs := make([]c38Outcome, trials)
+		var wg sync.WaitGroup
+		for i := range outs {
+			wg.Add(1)
+			go func(i int) {
+				defer wg.Done()
+				outs[i] = c38Play(s, false)
+			}(i)
+		}
+		wg.Wait()
+		var missed []c38Outcome
+		for i, o := range outs {
+			if o.infra != nil {
+				t.Fatalf("VERIF-INCONCLUSIVE: %v (schedule %s)", o.infra, s)
+			}
+			rec.Case(true, fmt.Sprintf("%s #%d", s, i), c38Classes(o)...)
+			if o.miss {
+				missed = append(missed, o)
+			}
+		}
+		switch {
+		case len(missed) >= c38Replays:
+			t.Fatalf("a change made right after Initialize() was never signalled in %d of %d runs\nschedule: %s\n%s",
+				len(missed), trials, s, missed[0].timeline())
+		case len(missed) > 0:
+			t.Fatalf("VERIF-INCONCLUSIVE: a change made right after Initialize() was not signalled in %d of %d runs (fewer than %d)\nschedule: %s\n%s",
+				len(missed), trials, c38Replays, s, missed[0].timeline())
+		}
 	}
 }
 
